@@ -576,16 +576,38 @@ func C10(p *an.Prog, r *an.Report) {
 		}
 	}
 	r.Analysed["codes_compared"] = codes
-	// the lookups confirmed on the pinned tree are the reference: a lookup that can no longer be
-	// extracted (rewritten in a form the evaluator does not read) must not silently leave the
-	// comparison
-	r.Floor("sig_size_lookups", len(byClass["sig"]), 8)
-	r.Floor("signing_pubkey_size_lookups", len(byClass["spk"]), 7)
-	r.Floor("crypto_pubkey_size_lookups", len(byClass["cpk"]), 6)
+	r.Floor("sig_size_lookups", len(byClass["sig"]), 4)
+	r.Floor("signing_pubkey_size_lookups", len(byClass["spk"]), 4)
+	r.Floor("crypto_pubkey_size_lookups", len(byClass["cpk"]), 3)
+	// the exported lookups confirmed on the pinned tree are the reference: one that can no longer
+	// be extracted (rewritten in a form the evaluator does not read) must not silently leave the
+	// comparison. Unexported helpers may come and go.
+	for class, names := range c10ExportedLookups {
+		for _, want := range names {
+			found := false
+			for _, l := range byClass[class] {
+				if strings.HasPrefix(l.Name, want) {
+					found = true
+				}
+			}
+			if !found {
+				r.Ob("C10.T1", "exported/"+class+"/"+want, "-", an.Undecided,
+					"an exported size lookup confirmed on the pinned tree is no longer extracted as a total function of the type code (rewritten in a form the evaluator cannot read, renamed or removed): it has left the comparison with the specification")
+			}
+		}
+	}
 	c10TypeValidators(p, r)
 	c10PrivateColumns(p, r, "C10.T4")
 	c10Constructed(p, r)
 	c10Block(p, r)
+}
+
+// c10ExportedLookups: the exported size lookups (functions by key, tables by name) per class, as
+// extracted on the pinned tree.
+var c10ExportedLookups = map[string][]string{
+	"sig": {"func (key_certificate.KeyCertificate).SignatureSize ", "func key_certificate.GetKeySizes [param signingType -> r0.SignatureSize]", "func key_certificate.GetSignatureSize ", "func offline_signature.SignatureSize ", "func signature.SignatureSize ", "table key_certificate.SigningKeySizes.SignatureSize"},
+	"spk": {"func (key_certificate.KeyCertificate).SigningPublicKeySize ", "func key_certificate.GetKeySizes [param signingType -> r0.SigningPublicKeySize]", "func key_certificate.GetSigningKeySize ", "func offline_signature.SigningPublicKeySize ", "table key_certificate.SignaturePublicKeySizes", "table key_certificate.SigningKeySizes.SigningPublicKeySize"},
+	"cpk": {"func (key_certificate.KeyCertificate).CryptoPublicKeySize ", "func (key_certificate.KeyCertificate).CryptoSize ", "func key_certificate.GetCryptoKeySize ", "func key_certificate.GetKeySizes [param cryptoType -> r0.CryptoPublicKeySize]", "table key_certificate.CryptoKeySizes.CryptoPublicKeySize", "table key_certificate.CryptoPublicKeySizes"},
 }
 
 // c10TypeValidators: func(int) error whose accept set is close to a spec key set must accept exactly
